@@ -213,8 +213,19 @@ def rule_comment_skipper(ctx, rep: Report, rid="L1"):
                 "ignore() propagates only to sub-expressions present when it is called; not "
                 "covered: " + ", ".join(sorted({ctx_label(g, n) for n in missing})[:6]),
                 f"{e.mi.rel}:{e.at.lineno}")
-    # other ignore calls must not remove / replace the skipper: (pyparsing has no removal API) -
-    # but a *second*, different root object used for parsing would bypass it: covered by V1/L3.
+    # pyparsing hands an ignore expression down only through elements that do not hold an equal one yet: an
+    # element that was given the skipper on its own (before its body existed, or before the root's call) stops the
+    # descent, and whatever is reachable only through it never learns to skip comments
+    for e in g.events:
+        if e.kind == "ignore" and e.node.uid != root.uid:
+            own_final = {n.uid: n for n in g.reachable(e.node)}
+            late = [n for uid, n in own_final.items() if uid not in e.reach and n.kind != "Comment"]
+            rep.add(rid, f"ignore applied to {e.node.label or ctx_label(g, e.node)} as well as to the root: it covered the element's whole final body",
+                    not late,
+                    "pyparsing's ignore() does not descend into an element that already holds an equal ignore expression: "
+                    "this call makes the root's ignore() stop here, so the elements reachable only through this one (the `,` "
+                    "of a template-argument list, a trailing `&`/`*`) do not skip comments", f"{e.mi.rel}:{e.at.lineno}")
+    # a *second*, different root object used for parsing would bypass the skipper: covered by V1/L3.
 
 
 IDCH = set("abcdefghijklmnopqrstuvwxyzABCDEFGHIJKLMNOPQRSTUVWXYZ0123456789_")
